@@ -183,7 +183,11 @@ def int_range_cases(draw, max_items=4, limits=None, spell_kinds=None):
 
 # code points whose quoted spelling contains a character that also means something in the range grammar (quotes,
 # backslash, separators, comma, minus, hash, blank, digits, letters of symbolic names and of the hex prefix)
-META_CODE_POINTS = [34, 39, 92, 0x2026, 58, 44, 46, 45, 35, 32, 48, 120, 116, 50, 60, 97, 122]
+META_CODE_POINTS = [34, 39, 92, 0x2026, 58, 44, 46, 45, 35, 32, 48, 120, 116, 50, 60, 97, 122,
+                    # typographic twins of grammar characters (what word processors and spreadsheets substitute):
+                    # minus and dashes, curly quotes, two / one dot leader, middle dots, full-width comma, colon, digit
+                    0x2212, 0x2010, 0x2011, 0x2012, 0x2013, 0x2014, 0x2018, 0x2019, 0x201C, 0x201D, 0x2025, 0x2024,
+                    0x22EF, 0x00B7, 0xFF0C, 0xFF1A, 0xFF10, 0x02D0]
 
 
 def unstable_char_range_cases(max_items=3):
@@ -206,6 +210,9 @@ def dec_limits():
         st.decimals(min_value=-1000, max_value=1000, places=2),
         st.decimals(min_value=-10, max_value=10, places=3),
         st.decimals(min_value=-(10**18), max_value=10**18, places=3),
+        # more digits than the default context of the decimal module keeps (28): limits are exact whatever their size
+        st.decimals(min_value=-(10**26), max_value=10**26, places=6),
+        st.decimals(min_value=-(10**19), max_value=10**19, places=12),
     )
 
 
@@ -243,13 +250,18 @@ def dec_range_cases(draw, max_items=4):
     step = Decimal(1).scaleb(-(max_places + 1))
     probes = set()
     finite = sorted(set(Decimal(v) for it in out_items for v in it if v is not None))
-    for v in finite:
-        probes.update((v - step, v, v + step, v - 1, v + 1))
-    for a, b in zip(finite, finite[1:]):
-        probes.add((a + b) / 2)
-    if finite:
-        probes.add(finite[0] - 1000)
-        probes.add(finite[-1] + 1000)
+    import decimal
+
+    with decimal.localcontext() as context:
+        context.prec = 120  # the probes are exact whatever the number of digits
+        tiny = Decimal(1).scaleb(-40)  # closer to a limit than any fixed number of significant digits resolves
+        for v in finite:
+            probes.update((v - step, v, v + step, v - 1, v + 1, v - tiny, v + tiny))
+        for a, b in zip(finite, finite[1:]):
+            probes.add((a + b) / 2)
+        if finite:
+            probes.add(finite[0] - 1000)
+            probes.add(finite[-1] + 1000)
     for extra in draw(st.lists(st.decimals(min_value=-100, max_value=100, places=2), min_size=2, max_size=2)):
         probes.add(extra)
     return {"kind": "dec", "description": description, "items": out_items,
